@@ -37,11 +37,15 @@ WINDOWS = {"D": 445267.0, "M": 35999.0, "Mp": 477199.0, "F": 483202.0, "Lp": 481
 KMAX_YEARS = 4000.0
 
 
+LINEAR = {}
+
+
 def fundamental(repo, rep):
     """fundamental argument polynomials in T (Julian centuries from J2000) found in Moon.py, grouped by role"""
     m = repo.mod(MOD)
     E_T = ("epoch", T.add(T.num(2451545), T.mul(T.num(36525), T.sym("TT"))))
     per_func = {}
+    LINEAR.clear()
     for q, fn in m.functions.items():
         if m.is_demo(q) or "<locals>" in q:
             continue
@@ -49,7 +53,11 @@ def fundamental(repo, rep):
         if not names or names[0] != "epoch":
             continue
         outs = outcomes(repo, MOD, q, arg_terms={names[0]: E_T})
-        ps = set(pure_polys(all_value_terms(outs), "TT", min_degree=2))
+        allps = set(pure_polys(all_value_terms(outs), "TT", min_degree=1))
+        ps = {p for p in allps if len(p) > 2}
+        lin = {p for p in allps if len(p) == 2}
+        if lin:
+            LINEAR[q] = lin
         if ps:
             per_func[q] = ps
             rep.fn(MOD, q)
@@ -113,6 +121,17 @@ def run(repo, rep, tier):
                                       "its copy of the fundamental argument %s differs from the other copies in Moon.py: %s vs %s"
                                       % (role, [float(x) for x in p], [float(x) for x in best]), obligation=True)
     rep.floor("copies of fundamental argument polynomials", ncopies, 8)
+    # a copy cut down to its linear part (same constant and rate as the reference, higher powers of T dropped) drifts
+    # quadratically away from the others: degrees at the ends of -2000..4000
+    for q, lin in sorted(LINEAR.items()):
+        for p in lin:
+            for role, best in ref.items():
+                if abs(float(p[1] - best[1])) <= abs(float(best[1])) * 1e-9 and abs((float(p[0] - best[0]) + 180.0) % 360.0 - 180.0) <= 1e-4 \
+                        and any(c != 0 for c in best[2:]):
+                    drift = abs(float(best[2])) * 40.0 ** 2
+                    rep.violation("R-POLY", "Moon.%s" % q, "copy-truncated:" + role,
+                                  "its copy of the fundamental argument %s keeps only %.7f + %.7f T; the other copies carry %s T^2 ...: %.2g deg apart at the ends of -2000..4000"
+                                  % (role, float(p[0]), float(p[1]), float(best[2]), drift), obligation=True)
     # E (eccentricity factor) copies: polynomials with c0 == 1 and tiny rate
     ecopies = {}
     for q, ps in per_func.items():
